@@ -2,11 +2,11 @@
 
 Stream `moral`: implementation's moral graph (nodes, edges) vs the Lean specification decider
 `C12.specEdges` (brute force over all simple paths: adjacent, or joined by a path whose inner nodes are all
-colliders) and vs the Lean model `C12.moral` (proved equal to the specification for all inputs:
+colliders; proved to decide the specification: C12.ccDec_iff) and vs the Lean model `C12.moral` (proved equal to the specification for all inputs:
 theorem C12.moral_adj_iff).  Plain DAGs are additionally compared with the Lean definition of
 skeleton + married parents and cross-checked with networkx.moral_graph.
 
-Stream `sep` (second sentence, rests on the classical theorem T2 -> test level): the implementation's
+Stream `sep` (second sentence; proved for the model in Pw/C12/Cut.lean, here exercised on the code): the implementation's
 moral graph of the implementation's anterior subgraph is handed to the Lean vertex-cut decider
 `C12.vcut`; the answer must equal the verified m-separation model `MG.mSeparatedE` (C01)."""
 import itertools
@@ -228,7 +228,7 @@ def gen_cases(ctx):
             yield {"g": g, "src": "exh4", "fam": FAMS[i % 3]}
             if tier == "thorough" or i % 8 == 0:
                 qs = list(all_queries(4))
-                for X, Y, Z in (qs if tier == "thorough" and i % 4 == 0 else rng.sample(qs, 4)):
+                for X, Y, Z in (qs if tier == "thorough" and i % 8 == 0 else rng.sample(qs, 4)):
                     yield {"g": g, "kind": "sep", "X": X, "Y": Y, "Z": Z, "src": "exh4-sep"}
     # structured random
     N = 6000 if tier == "quick" else 60000
@@ -256,13 +256,14 @@ def run(ctx):
                "{none,->,<-,<->,--} (thorough: all seven states); random n in 5..8: dense DAGs, ADMGs whose districts "
                "have several parents, bidirected chains, graphs with undirected parts; shuffled insertion order, five "
                "label families, missing layers.  sep stream (test level): exhaustive disjoint (X,Y,Z) on n<=3, sampled "
-               "on n=4 (thorough: every 4th graph all queries), random n in 4..5.  non-trivial (moral) = the "
+               "on n=4 (thorough: every 8th graph all queries), random n in 4..5.  non-trivial (moral) = the "
                "specification demands at least one edge between nodes that are not adjacent in G (a marriage); "
                "non-trivial (sep) = the moral graph of the anterior subgraph contains a marriage")
     ev.assumptions = ["inputs inside the quantifier of C01 (acyclic, no self loops, undirected edges only at nodes "
                       "without arrowheads); X, Y, Z pairwise disjoint, X and Y non-empty",
-                      "second sentence: T2 (m-separation = vertex cut in the moralised anterior subgraph) is a "
-                      "hypothesis of the conditional theorem; here it is only compared on the generated inputs",
+                      "second sentence: proved for the model (C12.sep_iff_vcut, via the proved T2); for the implementation "
+                      "it is compared on the generated inputs: its moral graph of its anterior subgraph, cut decided by "
+                      "the verified C12.vcut, against the verified m-separation model",
                       "label->index bijection and canonicalisation in harness/common.py"]
     cases = list(gen_cases(ctx))
     gots = C.pmap(impl, cases, chunksize=256)
